@@ -217,6 +217,51 @@ theorem unquote_etag_eq (etag : Option (List Char)) :
       · simp [hw]
       · simp [hw]
 
+/-- `parse_if_range_header(value)`, as translated from the current source (`IfRange.__init__` is
+translated too; `parse_date` stays an opaque function), builds the `IfRange` the model's
+`parseIfRange` builds **when the model is given no date for a value spelled like an entity tag**
+(`quotedLike`: after `lstrip`, a leading `"`, `W/"` or `w/"` - the test added by 31f8ea0), for every
+`parse_date` and every value including `None`. -/
+theorem parse_if_range_header_eq (pd : List Char → Option Int) (value : Option (List Char)) :
+    Gen.PyFns_Range.parse_if_range_header pd value
+      = ifRangeOf (Cond.parseIfRange value
+          (value.bind fun v => if quotedLike v then none else pd v)) := by
+  unfold Gen.PyFns_Range.parse_if_range_header Cond.parseIfRange
+  cases value with
+  | none => rfl
+  | some v =>
+    by_cases he : v.isEmpty = true
+    · simp [he, ifRangeOf, Gen.PyFns_Range.if_range_init]
+    · have hu := unquote_etag_eq (some v)
+      simp only at hu
+      simp only [he, Bool.false_eq_true, if_false, Option.bind_some, Gen.PyFns_Range.if_range_init, hu]
+      by_cases hq : quotedLike v = true
+      · have hq' := hq
+        unfold quotedLike at hq'
+        simp only [hq', Bool.not_true, Bool.false_eq_true, if_false, hq, if_true]
+        cases Cond.unquoteEtag v with
+        | none => rfl
+        | some p => obtain ⟨e, w⟩ := p; rfl
+      · have hq0 : quotedLike v = false := by simpa using hq
+        have hq' := hq0
+        unfold quotedLike at hq'
+        simp only [hq', Bool.not_false, if_true, hq0, Bool.false_eq_true, if_false]
+        cases pd v with
+        | some d => rfl
+        | none =>
+          cases Cond.unquoteEtag v with
+          | none => rfl
+          | some p => obtain ⟨e, w⟩ := p; rfl
+
+/-- The restriction above is needed: handing the model the raw `parse_date(value)` (as the harness
+does for its `cond` / `resp` commands) disagrees with the code as soon as `parse_date` accepts a
+quoted text - CPython's does, e.g. `"Wed, 21 Oct 2015 07:28:00 GMT"` with the quotes. Witness with an
+abstract date parser that accepts everything: the code reads `"x"` as the entity tag `x`, the model
+as a date. (Model/code difference of C11's hand model, reported; the code is right.) -/
+theorem parse_if_range_model_needs_unquoted_date :
+    Gen.PyFns_Range.parse_if_range_header (fun _ => some 0) (some ['"', 'x', '"'])
+      ≠ ifRangeOf (Cond.parseIfRange (some ['"', 'x', '"']) (some 0)) := by decide
+
 example : (Gen.PyFns_Range.parse_range_header (some "Bytes = 0-1, 5-".toList) true).toOption
     = some (some ("bytes ".toList.dropLast, [(0, some 2), (5, none)])) := by decide
 
